@@ -37,12 +37,13 @@ def plan(tier):
         for mode in dwt.MODES:
             items.append({'col': a, 'row': a, 'mode': mode, 'sizes': sizes(tier)[::3], 'form': '2tuple'})
             items.append({'col': a, 'row': a, 'mode': mode, 'sizes': sizes(tier)[::3], 'form': 'name'})
+            items.append({'col': a, 'row': a, 'mode': mode, 'sizes': sizes(tier)[::5], 'form': 'object'})
     return items
 
 
 def required_regimes(tier):
     return {'pair:equal_len', 'pair:different_len', 'size:h!=w', 'size:h==w', 'size:odd', 'form:4tuple', 'form:2tuple',
-            'form:name', 'analysis', 'synthesis', 'functional_afb2d', 'functional_sfb2d', 'functional:arrays',
+            'form:name', 'form:object', 'analysis', 'synthesis', 'functional_afb2d', 'functional_sfb2d', 'functional:arrays',
             'functional:prepared_tensors', 'functional:module_buffers', 'none_levels', 'backward_per_axis'}
 
 
@@ -53,6 +54,8 @@ def _waves(item):
         return (c.dec_lo, c.dec_hi, r.dec_lo, r.dec_hi), (c.rec_lo, c.rec_hi, r.rec_lo, r.rec_hi)
     if item['form'] == '2tuple':
         return (c.dec_lo, c.dec_hi), (c.rec_lo, c.rec_hi)
+    if item['form'] == 'object':
+        return pywt.Wavelet(item['col']), pywt.Wavelet(item['col'])
     return item['col'], item['col']
 
 
